@@ -189,7 +189,10 @@ func concat(lhs, rhs *sysl.Value_List) *sysl.Value {
 	result := MakeValueList()
 	{
 		result := result.GetList()
-		result.Value = lhs.Value
+		// copy: appending to lhs.Value directly would share (and later overwrite) the
+		// left operand's backing array
+		result.Value = make([]*sysl.Value, 0, len(lhs.Value)+len(rhs.Value))
+		result.Value = append(result.Value, lhs.Value...)
 		result.Value = append(result.Value, rhs.Value...)
 		logrus.Tracef("concatList: lhs %d | rhs %d = %d\n", len(lhs.Value), len(rhs.Value), len(result.Value))
 	}
